@@ -201,7 +201,8 @@ func (g *Gen) corruptTypes(o *Occ) {
 	w := func(format string, a ...interface{}) { fmt.Fprintf(&b, "\t"+format+"\n", a...) }
 	w("m := map[string]attr.Type{}")
 	if o.Empty {
-		w(`m["active"] = types.BoolType`)
+		// the placeholder attribute of a field-less message has an attribute type like any other
+		w(`{ key := path + "/active"; rm := vrt.Bool(); cz[key] = 0; if rm { cz[key] = 1 } else { m["active"] = types.BoolType } }`)
 	}
 	for _, inj := range o.Injected {
 		w(`m[%q] = %s`, inj.Name, injectedTypeExpr(inj.Type))
@@ -237,6 +238,11 @@ func (g *Gen) typesCheck(o *Occ) {
 	var b strings.Builder
 	w := func(format string, a ...interface{}) { fmt.Fprintf(&b, "\t"+format+"\n", a...) }
 	w("_, _, _, _ = d, tf, tfi, p")
+	if o.Empty {
+		w(`{ key := path + "/active"; nm := countWriteMissing(d, %q)`, o.Path+".active")
+		w(`  if needed && cz[key] == 1 { vrt.Assert("C06/to/"+key+":exactly-one-missing-diagnostic", nm == 1); _, has := tf.Attrs["active"]; vrt.Assert("C06/to/"+key+":not-written", !has) }`)
+		w(`  if needed && cz[key] == 0 { _, has := tf.Attrs["active"]; vrt.Assert("C06/to/"+key+":still-written", has) } }`)
+	}
 	for _, s := range o.Slots {
 		n := s.Attr
 		x := "p" + s.Access
